@@ -16,9 +16,9 @@ Fixpoint graph_nodup (g : graph) : bool :=
 Definition no_bounds (c : clause) : bool :=
   is_empty (cPLoA c) && is_empty (cPUpA c) && negb (is_some (cPLo c)) && negb (is_some (cPUp c)).
 
-(* a clause of the supported fragment; it may be OPTIONAL *)
+(* a clause of the supported fragment; it may be OPTIONAL, and it may be fully specified if it has an alias *)
 Definition d10_clause (c : clause) : bool :=
-  negb (specificity3 c) && no_bounds c && is_empty (cOLoA c) && is_empty (cOUpA c) && is_empty (cOIdA c) &&
+  (negb (specificity3 c) || has_alias c) && no_bounds c && is_empty (cOLoA c) && is_empty (cOUpA c) && is_empty (cOIdA c) &&
   (match cP c with Some _ => is_empty (cPID c) | None => is_empty (cPID c) || negb (is_empty (cPAncB c)) end) &&
   (match cO c with Some _ => is_empty (cOID c) | None => is_empty (cOID c) || negb (is_empty (cOAncB c)) end) &&
   negb (match binders c with [] => true | _ => false end).
@@ -28,13 +28,14 @@ Definition d3_clause (c : clause) : bool := negb (c_opt c) && d10_clause c.
 
 (* the whole case: environment, graphs, clauses, output bindings *)
 Definition D3 (e : cfg) (gs : list graph) (cs : list clause) (outs : list str) : bool :=
-  ks e && negb (strlit_invalid e) && fix9 e && fix14 e && fixoid e && fixsb e && fixzone e &&
-  forallb graph_nodup gs && forallb d3_clause cs && negb (match cs with [] => true | _ => false end) && nodup_str outs.
+  ks e && negb (strlit_invalid e) && fix9 e && fix14 e && fixoid e && fixsb e && fixzone e && fixs3 e &&
+  forallb graph_nodup gs && forallb d3_clause cs &&
+  (match cs with c :: _ => negb (specificity3 c) | [] => false end) && nodup_str outs.
 
 
 (* D10: as D3, but the clauses after the first may be OPTIONAL (sharing any number of bindings with the rows built so far);
    the LeftOptionalJoin repair F9 must be in *)
 Definition D10 (e : cfg) (gs : list graph) (cs : list clause) (outs : list str) : bool :=
-  ks e && negb (strlit_invalid e) && fix9 e && fix14 e && fixoid e && fixsb e && fixzone e &&
+  ks e && negb (strlit_invalid e) && fix9 e && fix14 e && fixoid e && fixsb e && fixzone e && fixs3 e &&
   forallb graph_nodup gs && forallb d10_clause cs &&
-  (match cs with c :: _ => negb (c_opt c) | [] => false end) && nodup_str outs.
+  (match cs with c :: _ => negb (c_opt c) && negb (specificity3 c) | [] => false end) && nodup_str outs.
